@@ -16,7 +16,7 @@ import uuid
 
 VERIF = os.path.dirname(os.path.dirname(os.path.abspath(__file__)))
 REPO = os.environ.get("RPX_REPO", "/repo")
-CACHE = os.path.join(VERIF, ".cache")
+CACHE = os.environ.get("RPX_CACHE_DIR") or os.path.join(VERIF, ".cache")
 DRIVER_DIR = os.path.join(VERIF, "engine", "rpx-driver")
 DRIVER = os.path.join(DRIVER_DIR, "target", "release", "rpx-driver")
 SHIM = os.path.join(VERIF, "engine", "rustc_shim.sh")
